@@ -52,6 +52,7 @@ type cell struct {
 	Sig        []string `json:"sig,omitempty"`
 	Ret        string   `json:"ret,omitempty"`
 	Extra      string   `json:"extra,omitempty"`
+	Why        string   `json:"why,omitempty"`
 	Stmt       string   `json:"stmt,omitempty"`
 	Action     string   `json:"action,omitempty"`
 	Scopes     []string `json:"scopes,omitempty"`
@@ -70,6 +71,11 @@ director dir random { { .backend = example; .weight = 1; } }
 acl internal { "192.0.2.0"/24; }
 table tbl STRING { "k": "v", }
 table tblb BACKEND { "k": example, }
+table tbool BOOL { "k": true, }
+table tint INTEGER { "k": 1, }
+table tfloat FLOAT { "k": 1.5, }
+table trtime RTIME { "k": 1s, }
+table tacl ACL { "k": internal, }
 ratecounter rc {}
 penaltybox pb {}
 `
@@ -145,10 +151,18 @@ var stringArg = map[string]map[int]string{
 	"std.itoa_charset": {2: `"ab"`}, "std.atoi": {1: `"1"`}, "std.atof": {1: `"1.5"`}, "std.strtol": {1: `"1"`},
 	"std.strtof": {1: `"1.5"`}, "std.ip": {1: `"192.0.2.1"`, 2: `"192.0.2.2"`}, "std.str2ip": {1: `"192.0.2.1"`, 2: `"192.0.2.2"`},
 	"uuid.version3": {1: `"6ba7b810-9dad-11d1-80b4-00c04fd430c8"`}, "uuid.version5": {1: `"6ba7b810-9dad-11d1-80b4-00c04fd430c8"`},
-	"time.hex_to_time": {2: `"5f5e100"`}, "accept.media_lookup": {1: `"a/b"`, 2: `"c/d"`, 3: `"e/f"`, 4: `"a/b"`},
+	"time.hex_to_time":     {2: `"5f5e100"`},
+	"digest.time_hmac_md5": {1: `"czE="`}, "digest.time_hmac_sha1": {1: `"czE="`}, "digest.time_hmac_sha256": {1: `"czE="`},
+	"digest.time_hmac_sha512": {1: `"czE="`},
+	"crypto.encrypt_hex":      {4: `"000102030405060708090a0b0c0d0e0f"`, 5: `"000102030405060708090a0b0c0d0e0f"`, 6: `"00112233445566778899aabbccddeeff"`},
+	"crypto.decrypt_hex":      {4: `"000102030405060708090a0b0c0d0e0f"`, 5: `"000102030405060708090a0b0c0d0e0f"`, 6: `"00112233445566778899aabbccddeeff"`},
+	"crypto.encrypt_base64":   {4: `"000102030405060708090a0b0c0d0e0f"`, 5: `"000102030405060708090a0b0c0d0e0f"`, 6: `"ABEiM0RVZneImaq7zN3u/w=="`},
+	"crypto.decrypt_base64":   {4: `"000102030405060708090a0b0c0d0e0f"`, 5: `"000102030405060708090a0b0c0d0e0f"`, 6: `"ABEiM0RVZneImaq7zN3u/w=="`}, "accept.media_lookup": {1: `"a/b"`, 2: `"c/d"`, 3: `"e/f"`, 4: `"a/b"`},
 }
 var intArg = map[string]map[int]string{
 	"std.itoa": {2: "10"}, "std.strtol": {2: "10"}, "std.strtof": {2: "10"},
+	"ratelimit.check_rate":  {3: "1", 4: "10", 5: "100"},
+	"ratelimit.check_rates": {3: "1", 4: "10", 5: "100", 7: "1", 8: "60", 9: "100"},
 }
 
 func argOf(t string, fn string, i int) (string, bool) {
@@ -171,6 +185,9 @@ func argOf(t string, fn string, i int) (string, bool) {
 	case "BOOL":
 		return "true", true
 	case "RTIME":
+		if strings.HasPrefix(fn, "ratelimit.") {
+			return "2m", true
+		}
 		return "1s", true
 	case "TIME":
 		return "now", true
@@ -181,8 +198,11 @@ func argOf(t string, fn string, i int) (string, bool) {
 	case "ACL":
 		return "internal", true
 	case "TABLE":
-		if strings.Contains(fn, "backend") {
-			return "tblb", true
+		for suffix, tbl := range map[string]string{"_backend": "tblb", "_bool": "tbool", "_integer": "tint", "_float": "tfloat",
+			"_rtime": "trtime", "_acl": "tacl"} {
+			if strings.HasSuffix(fn, suffix) {
+				return tbl, true
+			}
 		}
 		return "tbl", true
 	case "ID":
@@ -190,15 +210,32 @@ func argOf(t string, fn string, i int) (string, bool) {
 		case strings.HasPrefix(fn, "ratelimit.") && strings.Contains(fn, "penaltybox"):
 			return "pb", true
 		case strings.HasPrefix(fn, "ratelimit.check_rates"):
-			return map[int]string{1: "rc", 4: "rc", 7: "pb"}[i], i == 1 || i == 4 || i == 7
+			if i == 10 {
+				return "pb", true
+			}
+			return "rc", true
 		case strings.HasPrefix(fn, "ratelimit.check_rate"):
-			return map[int]string{1: "rc", 5: "pb"}[i], i == 1 || i == 5
+			if i == 6 {
+				return "pb", true
+			}
+			return "rc", true
 		case strings.HasPrefix(fn, "ratelimit.ratecounter"):
 			return "rc", true
 		case strings.HasPrefix(fn, "table."):
 			return "tbl", true
 		case strings.HasPrefix(fn, "header."):
 			return "req", true
+		case strings.HasPrefix(fn, "setcookie."):
+			return "beresp", true
+		case fn == "std.count":
+			return "req.headers", true
+		case strings.HasPrefix(fn, "crypto."):
+			return map[int]string{1: "aes128", 2: "cbc", 3: "pkcs7"}[i], i >= 1 && i <= 3
+		case strings.HasPrefix(fn, "digest.rsa_verify") || strings.HasPrefix(fn, "digest.ecdsa_verify"):
+			if i == 1 {
+				return "sha256", true
+			}
+			return "url_nopad", true
 		case strings.HasPrefix(fn, "std.collect") || strings.HasPrefix(fn, "std.count"):
 			return "req.http.X-Any", true
 		}
@@ -267,7 +304,7 @@ func render(c *cell) program {
 		case "unset":
 			body = append(body, fmt.Sprintf("unset %s;", n))
 		}
-	case "fn":
+	case "fn", "fnsig":
 		var args []string
 		for i, t := range c.Sig {
 			a, ok := argOf(t, c.Name, i+1)
@@ -463,6 +500,8 @@ func cellID(c *cell) string {
 		return fmt.Sprintf("var:%s/%s@%s", c.Name, c.Access, strings.Join(c.Scopes, "+"))
 	case "fn":
 		return fmt.Sprintf("fn:%s(%s)@%s", c.Name, strings.Join(c.Sig, ","), strings.Join(c.Scopes, "+"))
+	case "fnsig":
+		return fmt.Sprintf("fnsig:%s:%s(%s)@%s", c.Why, c.Name, strings.Join(c.Sig, ","), strings.Join(c.Scopes, "+"))
 	case "stmt":
 		return fmt.Sprintf("stmt:%s%s@%s", c.Stmt, map[bool]string{true: "(" + c.Action + ")", false: ""}[c.Action != ""], strings.Join(c.Scopes, "+"))
 	}
@@ -478,6 +517,8 @@ func classOf(c *cell) map[string]any {
 		m["name"], m["access"] = c.Name, c.Access
 	case "fn":
 		m["name"] = c.Name
+	case "fnsig":
+		m["name"], m["why"] = c.Name, c.Why
 	case "stmt":
 		m["stmt"] = c.Stmt
 		if c.Action != "" {
@@ -580,7 +621,7 @@ func runShard(self string, lines [][]byte, emit func([]byte)) {
 		go func(from int) {
 			w := bufio.NewWriter(stdin)
 			for _, l := range lines[from:] {
-				w.Write(l)       // nolint:errcheck
+				w.Write(l)        // nolint:errcheck
 				w.WriteByte('\n') // nolint:errcheck
 			}
 			w.Flush()
